@@ -24,13 +24,13 @@ const (
 )
 
 type Obligation struct {
-	Property  string `json:"property"`
-	Rule      string `json:"rule"`
-	Construct string `json:"construct"`
-	Status    string `json:"status"`
-	Pos       string `json:"pos,omitempty"`
-	How       string `json:"how,omitempty"`    // how it was discharged
-	Detail    string `json:"detail,omitempty"` // why it is violated / undecided
+	Property  string   `json:"property"`
+	Rule      string   `json:"rule"`
+	Construct string   `json:"construct"`
+	Status    string   `json:"status"`
+	Pos       string   `json:"pos,omitempty"`
+	How       string   `json:"how,omitempty"`    // how it was discharged
+	Detail    string   `json:"detail,omitempty"` // why it is violated / undecided
 	Path      []string `json:"path,omitempty"`
 }
 
